@@ -14,6 +14,7 @@ import (
 	"fmt"
 	"go/token"
 	"go/types"
+	"sort"
 	"strings"
 
 	"golang.org/x/tools/go/ssa"
@@ -498,7 +499,53 @@ func ruleN9(p *Prog, r *Report) {
 				"the callback captures "+bad+", a boolean computed from the child's inlined / inlinable state when the callback was installed: another handle of the same child may have changed that state since, and the callback then skips an update that is needed (or the other way round)")
 		})
 	}
-	r.Floor(R, "callback setters and installations", 4, n)
+	// (c) a child that was recorded is a child whose callback is installed
+	for _, top := range p.TopFuncs() {
+		if p.IsTestFile(top.Pos()) {
+			continue
+		}
+		var inst []ssa.Instruction
+		eachInstr(top, func(in ssa.Instruction) {
+			c, ok := in.(ssa.CallInstruction)
+			if !ok || calleeName(c) != "setParentUpdater" {
+				return
+			}
+			args := callArgs(c)
+			if len(args) > 0 && closureOf(args[len(args)-1]) != nil {
+				inst = append(inst, in)
+			}
+		})
+		if len(inst) == 0 {
+			continue
+		}
+		isInst := func(in ssa.Instruction) bool {
+			for _, x := range inst {
+				if x == in {
+					return true
+				}
+			}
+			return false
+		}
+		eachInstr(top, func(in ssa.Instruction) {
+			recorded := false
+			if fw, ok := fieldWriteOf(in); ok && fw.Kind == "mapupdate" && isChildRegistryField(fw.Ref) {
+				recorded = true
+			}
+			if c, ok := in.(ssa.CallInstruction); ok && !recorded {
+				if k, _, ok := p.registryHelper(c.Common().StaticCallee()); ok && k == "mapupdate" {
+					recorded = true
+				}
+			}
+			if !recorded {
+				return
+			}
+			n++
+			bad := successReturnAvoiding(top, in, isInst)
+			r.Decide(bad == nil, R, "recorded-child-gets-callback:"+p.Name(top), p.InstrPos(in), "every return after the child was recorded passes through the installation of this parent's callback",
+				"the child is recorded as an element of this parent, but the function can return without installing this parent's callback: a child that still carries the callback of a former parent keeps it, that callback reports 'not my child' and is dropped, and this parent is never told about the child's mutations")
+		})
+	}
+	r.Floor(R, "callback setters and installations", 6, n)
 }
 
 // L35 the position a lower-bound search returns is compared with the key before it counts as a hit.
@@ -545,4 +592,170 @@ func ruleL35(p *Prog, r *Report) {
 		})
 	}
 	r.Ok(R, "lower-bound-searches", "-", fmt.Sprintf("%d calls of sort.Search*", n))
+}
+
+// S18 the base storage's counters are reports, never grounds for a decision.
+//
+// BaseStorage's parameterless numeric methods (SegmentCounts, Size, and the usage reporter's counters) describe what
+// the *committed* store has seen: they know nothing of the write set, and the ledger-backed store answers 0 for
+// some of them. A branch of library code that depends on one of them - directly or through a pass-through such as
+// (*PersistentSlabStorage).Count - gives a different answer for the same logical content depending on how much of it
+// happens to be committed. Obligation: no If condition in the library is computed from such a counter. Instances:
+// the counters of the interface, the pass-through functions, and every call of either in library code.
+func ruleS18(p *Prog, r *Report) {
+	const R = "S18"
+	isBaseStorageIface := func(t types.Type) *types.Interface {
+		it, ok := t.Underlying().(*types.Interface)
+		if !ok {
+			return nil
+		}
+		has := map[string]bool{}
+		for i := 0; i < it.NumMethods(); i++ {
+			has[it.Method(i).Name()] = true
+		}
+		if has["Store"] && has["Retrieve"] && has["GenerateSlabID"] {
+			return it
+		}
+		return nil
+	}
+	counters := map[string]bool{}
+	for _, m := range p.RootSSA.Members {
+		tp, ok := m.(*ssa.Type)
+		if !ok {
+			continue
+		}
+		it := isBaseStorageIface(tp.Type())
+		if it == nil {
+			continue
+		}
+		for i := 0; i < it.NumMethods(); i++ {
+			sg := it.Method(i).Type().(*types.Signature)
+			if sg.Params().Len() != 0 || sg.Results().Len() != 1 {
+				continue
+			}
+			if bt, ok := sg.Results().At(0).Type().Underlying().(*types.Basic); ok && bt.Info()&types.IsNumeric != 0 {
+				counters[it.Method(i).Name()] = true
+			}
+		}
+	}
+	isCounterCall := func(v ssa.Value, pass map[*ssa.Function]bool) bool {
+		c, ok := v.(*ssa.Call)
+		if !ok {
+			return false
+		}
+		if c.Call.IsInvoke() {
+			return counters[c.Call.Method.Name()] && isBaseStorageIface(c.Call.Value.Type()) != nil
+		}
+		g := c.Call.StaticCallee()
+		if g == nil {
+			return false
+		}
+		if pass[g] {
+			return true
+		}
+		// a concrete base storage's own counter
+		if counters[g.Name()] && g.Signature.Recv() != nil && len(g.Params) == 1 {
+			if ms := p.SSA.MethodSets.MethodSet(g.Signature.Recv().Type()); ms.Lookup(g.Pkg.Pkg, "GenerateSlabID") != nil && ms.Lookup(g.Pkg.Pkg, "Retrieve") != nil && ms.Lookup(g.Pkg.Pkg, "Store") != nil {
+				if sg := ms.Lookup(g.Pkg.Pkg, "Store").Type().(*types.Signature); sg.Params().Len() == 2 {
+					if _, isSlice := sg.Params().At(1).Type().Underlying().(*types.Slice); isSlice {
+						return true
+					}
+				}
+			}
+		}
+		return false
+	}
+	pass := map[*ssa.Function]bool{}
+	for changed := true; changed; {
+		changed = false
+		for _, f := range p.TopFuncs() {
+			if pass[f] || p.IsTestFile(f.Pos()) || f.Signature.Results().Len() != 1 {
+				continue
+			}
+			all, any := true, false
+			eachInstr(f, func(in ssa.Instruction) {
+				ret, ok := in.(*ssa.Return)
+				if !ok || len(ret.Results) != 1 {
+					return
+				}
+				any = true
+				if !sliceContains(ret.Results[0], func(x ssa.Value) bool { return isCounterCall(x, pass) }, 0, map[ssa.Value]bool{}) {
+					all = false
+				}
+			})
+			if any && all {
+				pass[f] = true
+				changed = true
+			}
+		}
+	}
+	nCalls := 0
+	for _, top := range p.TopFuncs() {
+		if p.IsTestFile(top.Pos()) {
+			continue
+		}
+		eachInstrDeep(top, func(fn *ssa.Function, in ssa.Instruction) {
+			if v, ok := in.(ssa.Value); ok && isCounterCall(v, pass) {
+				nCalls++
+			}
+			ifi, ok := in.(*ssa.If)
+			if !ok {
+				return
+			}
+			var src ssa.Value
+			sliceContains(ifi.Cond, func(x ssa.Value) bool {
+				if isCounterCall(x, pass) {
+					src = x
+					return true
+				}
+				return false
+			}, 0, map[ssa.Value]bool{})
+			if src != nil {
+				r.Bad(R, "counter-not-a-ground:"+p.Name(fn), p.InstrPos(in), "this branch depends on "+src.String()+": a count of what the committed store holds, which ignores the write set (and is 0 on a ledger-backed store) - the same logical content gives different answers before and after a commit")
+			}
+		})
+	}
+	names := []string{}
+	for k := range counters {
+		names = append(names, k)
+	}
+	sort.Strings(names)
+	r.Decide(true, R, "counters-identified", p.Pos(p.RootSSA.Pkg.Scope().Lookup("BaseStorage").Pos()), "counters of the base-storage interface: "+strings.Join(names, ", ")+"; pass-through functions: "+itoa(len(pass))+"; calls in library code: "+itoa(nCalls)+"; none feeds a branch", "")
+	r.Floor(R, "base-storage counters", 2, len(counters))
+	r.Floor(R, "pass-through functions and counter calls", 2, len(pass)+nCalls)
+}
+
+// L36 digests are only compared, never computed with.
+//
+// A Digest is an opaque position in the key space: every value from 0 to 2^64-1 is the digest of possible keys, so
+// the code that routes by digest (binary searches over first keys, sorted element lists) must work at both ends of
+// the range. Comparison does; arithmetic does not (hkey+1 wraps to 0 for the largest digest and sends its key to the
+// wrong child). Obligation: no arithmetic or shift instruction of library code has an operand or result of type
+// Digest. Instances counted for the floor: the ordered comparisons of digests (the routing decisions).
+func ruleL36(p *Prog, r *Report) {
+	const R = "L36"
+	isDigest := func(t types.Type) bool {
+		nt, ok := t.(*types.Named)
+		return ok && nt.Obj().Name() == "Digest" && nt.Obj().Pkg() == p.RootSSA.Pkg
+	}
+	nCmp := 0
+	for _, top := range p.TopFuncs() {
+		if p.IsTestFile(top.Pos()) {
+			continue
+		}
+		eachInstrDeep(top, func(fn *ssa.Function, in ssa.Instruction) {
+			bo, ok := in.(*ssa.BinOp)
+			if !ok || !(isDigest(bo.X.Type()) || isDigest(bo.Y.Type()) || isDigest(bo.Type())) {
+				return
+			}
+			switch bo.Op {
+			case token.EQL, token.NEQ, token.LSS, token.LEQ, token.GTR, token.GEQ:
+				nCmp++
+				return
+			}
+			r.Bad(R, "digest-arithmetic:"+p.Name(fn), p.InstrPos(in), "a digest is computed with ("+bo.Op.String()+"): digests cover the whole 64-bit range, so the result wraps for keys at the end of the range and the routing that uses it sends those keys to the wrong slab (present keys are reported missing, inserts land where lookups do not search)")
+		})
+	}
+	r.Decide(true, R, "digest-comparisons", "-", "ordered / equality comparisons of digests in library code: "+itoa(nCmp)+"; no arithmetic on a digest", "")
+	r.Floor(R, "digest comparisons", 10, nCmp)
 }
